@@ -12,6 +12,7 @@
  *     cpu <index> <phyid>
  *     require <model> <version>
  *     rank <rank> <nranks>
+ *     fsize <bytes>                  RLIMIT_FSIZE from now on (SIGXFSZ ignored)
  *     ev <mcv> <clock|now> <hex|-> [[p:|m:|r:]a+b+c]   payload added with one or several ovni_payload_add;
  *                                             prefix = order of the set_mcv/set_clock/payload_add calls
  *     jumbo <mcv> <clock|now> <size> <seed>
@@ -49,6 +50,8 @@
 #include <stdio.h>
 #include <stdlib.h>
 #include <string.h>
+#include <signal.h>
+#include <sys/resource.h>
 #include <sys/syscall.h>
 #include <unistd.h>
 
@@ -466,6 +469,15 @@ run_line(struct section *s, char *line)
 		pthread_barrier_wait(&bar);
 	} else if (strcmp(op, "usleep") == 0) {
 		usleep((useconds_t) atoi(args));
+	} else if (strcmp(op, "fsize") == 0) {
+		/* fsize <bytes>: from now on no file of the process can grow beyond
+		 * that size (a quota / file size limit); writes that would fail
+		 * with EFBIG instead of killing the process */
+		struct rlimit rl;
+		rl.rlim_cur = rl.rlim_max = (rlim_t) strtoull(args, NULL, 10);
+		signal(SIGXFSZ, SIG_IGN);
+		if (setrlimit(RLIMIT_FSIZE, &rl) != 0)
+			exit(97);
 	} else {
 		log_other(s, line);
 		if (strcmp(op, "cpu") == 0) {
